@@ -25,6 +25,7 @@ func init() {
 const parPkg = "parallelisation"
 
 func runC12(c *Ctx) {
+	c.paralleliseReturnsTheInvocationsError()
 	c.rule("T1", "standalone channel operations have a guaranteed partner (buffered send sized to its senders; receive from a goroutine that always sends, or from Done() of a context whose cancel was just called)", 6)
 	c.rule("T2", "in a runner's select the timeout/cancel case triggers the action's stop signal before waiting for the action and yields the timeout kind; the completion case yields the action's own result", 4)
 	c.rule("T3", "every cancel function from context.With* is called on every exit or registered in a CancelFunctionStore; every store created in a function is cancelled on every exit", 5)
